@@ -47,10 +47,18 @@ def main():
     repeat = sc.get("repeat", 1)
     err = None
     try:
+        import shutil
+
         for rep in range(repeat):
-            suffix = "" if rep == 0 else f".rep{rep}"
+            # the repetition writes to the SAME paths as the first run (what the first run left there must not
+            # matter); the first run's files are kept as copies named *.first
             with contextlib.redirect_stdout(io.StringIO()):
-                run(cmd, a, out, suffix)
+                run(cmd, a, out, "")
+            if rep == 0 and repeat > 1:
+                for fn in os.listdir(out):
+                    fp = os.path.join(out, fn)
+                    if os.path.isfile(fp) and fn != "scenario.json":
+                        shutil.copyfile(fp, fp + ".first")
     except BaseException as e:  # noqa
         err = f"{type(e).__name__}: {e}"
     print(json.dumps({"orders": orders, "error": err, "hashseed": os.environ.get("PYTHONHASHSEED")}))
@@ -65,6 +73,8 @@ def run(cmd, a, out, suffix):
         if a.get("ped"):
             kw["ped"] = a["ped"]
             kw["recombination_list_filename"] = p("recomb.tsv")
+        if a.get("gtlist"):
+            kw["gtchange_list_filename"] = p("gtchange.tsv")
         with open(p("out.vcf"), "w") as f:
             run_whatshap(a["inputs"], a["vcf"], reference=a["fasta"], output=f, write_command_line_header=False, read_list_filename=p("reads.tsv"), **kw)
     elif cmd == "genotype":
